@@ -14,6 +14,9 @@ import (
 
 var vCrashedLog *vAbsLog
 
+// vCrashedLogs: per storage directory (cluster harnesses restart one node among several); falls back to vCrashedLog.
+var vCrashedLogs = map[string]*vAbsLog{}
+
 func vOpenValue(dir, ext string) (*value, error) {
 	d := vDisk[vKey(dir, ext)]
 	if d == nil {
@@ -25,6 +28,9 @@ func vOpenValue(dir, ext string) (*value, error) {
 
 func vLogOpen(dir string, dirMode os.FileMode, opt log.Options) (*log.Log, error) {
 	old := vCrashedLog
+	if o, ok := vCrashedLogs[dir]; ok {
+		old = o
+	}
 	l, a := vNewLog(old.base)
 	a.prev = old.prev
 	a.bounds = append([]uint64(nil), old.bounds...)
